@@ -2,6 +2,8 @@
 # Build the framework from files on disk only (offline). Run once after a fresh restore, cwd = /verif.
 set -e
 cd "$(dirname "$0")"
-(cd lean && lake build 2>&1 | tail -5)
+(cd lean && lake build 2>&1 | tail -15)
 echo '{"k":"events","ops":[["connect",1,0],["emit"]]}' | (cd lean && lake env lean --run drivers/C20.lean)
+# compiled tensor kernels, built from /repo's current .pyx into .cache/ (checks rebuild when the source changes)
+/venv/bin/python -m vlib.cybuild || echo "WARNING: compiled kernels did not build; tensor checks will report it"
 echo "setup ok"
